@@ -267,6 +267,18 @@ class Function:
                     continue
             yield y
 
+    def walk_deep(self, n, _depth=0, _seen=None):
+        """walk_resolved(n), additionally following locals that have exactly one definition into that definition"""
+        _seen = set() if _seen is None else _seen
+        for y in self.walk_resolved(n):
+            yield y
+            if y.get("k") == "ref" and y.get("rk") in ("l", "sl") and _depth < 4 and y["n"] not in _seen:
+                d = self.single_def(y["n"])
+                if d is not None:
+                    _seen.add(y["n"])
+                    for z in self.walk_deep(d, _depth + 1, _seen):
+                        yield z
+
     # ---- CFG ------------------------------------------------------------------------
     def succs(self, bid):
         return [s for s in self.blocks[bid]["succ"] if s is not None]
